@@ -34,7 +34,9 @@ func rulesStorage() []*Rule {
 		ruleChunkBound(),
 		ruleCompactKeep(),
 	}
-	return append(rs, ruleStorageAll(rs))
+	// STORAGE-ALL (debugging aggregate) is not registered: it would report every obligation twice.
+	_ = ruleStorageAll
+	return rs
 }
 
 // ruleStorageAll runs every storage rule in one process and applies each rule's floor itself.
